@@ -64,7 +64,7 @@ POISONS = {
     'falsy-non-number-divisor': ['amount / field.nope < 5', 'amount / "" < 5', 'amount % "" == 0', '10 / description.strip("abcdefghijklmnopqrstuvwxyzABCDEFGHIJKLMNOPQRSTUVWXYZ0123456789 .-*#\'") < 1'],
 }
 REF_DECIDES = {'failing-row-in-list-comprehension', 'unknown-name', 'falsy-non-number-divisor', 'division-type', 'arithmetic-on-strings'}
-POSITIONS = ['match-whole', 'match-and', 'match-or', 'let-extra', 'field-extra', 'tag-extra', 'transform', 'variable']
+POSITIONS = ['match-whole', 'match-and', 'match-or', 'let-extra', 'field-extra', 'tag-extra', 'transform', 'variable', 'let-shadows-global']
 
 VIEW_POISONS = ['sum(by("month")) > 100', 'category > 5', 'payments > 3', 'months + "x" > 1', 'nosuchvar > 1', 'total / category > 1',
                 'stddev(category) > 1', 'by("fortnight") == 1', 'max_val(1) > 0', 'avg(payments, 2) > 1', '"x" in months',
@@ -114,6 +114,13 @@ def poisoned(rf, pos, poison, rnd):
         i = rnd.randrange(len(rf.rules))
         rf2.rules[i].lets = list(rf2.rules[i].lets)
         rf2.rules[i].lets.insert(rnd.randint(0, len(rf2.rules[i].lets)), ('zzbad', poison))
+    elif pos == 'let-shadows-global':
+        # a rule that never matches binds, FIRST thing, a name the file also defines at top level - with something that cannot be evaluated.  The binding
+        # is that rule's own: every other rule keeps reading the top-level variable
+        names = [n for n, _ in rf.variables] or ['big']
+        shadow = R.Rule('ShadowLet', 'contains("zzzz-never-there") and %s == 1' % rnd.choice(names), 'ShadowCat', 'x', lets=[(rnd.choice(names), poison), ('zzother', '1')])
+        k = rnd.randint(0, max(0, len(rf2.rules) - 1))
+        rf2.rules = rf2.rules[:k] + [shadow] + rf2.rules[k:]
     elif pos == 'field-extra':
         if not rf.rules:
             return poisoned(rf, 'variable', poison, rnd)
@@ -331,7 +338,7 @@ def judge_views(rec, rnd):
             ('Tagged', '"recurring" in tags'), ('Monthly', 'max(sum(by("month"))) > 100')]
     views = rnd.sample(good, rnd.randint(2, 4))
     poison = rnd.choice(VIEW_POISONS)
-    mode = rnd.choice(['filter', 'filter-and', 'local-var', 'global-var', 'local-shadows-global'])
+    mode = rnd.choice(['filter', 'filter-and', 'local-var', 'global-var', 'local-shadows-global', 'global-chain'])
     def text(vs, gl=''):
         return gl + '\n'.join('[%s]\n%sfilter: %s\n' % (n, ''.join('%s = %s\n' % lv for lv in loc), f) for n, loc, f in vs)
     base = [(n, [], f) for n, f in views]
@@ -352,6 +359,14 @@ def judge_views(rec, rnd):
         pv = base[:]
         pv.insert(rnd.randint(0, len(pv)), ('Poisoned', [('thr', poison)], 'total > thr'))
         ptxt, btxt, gone = text(pv, gl), text(base, gl), None
+    elif mode == 'global-chain':
+        # variables that refer to variables declared LATER in the file, which in turn cannot be evaluated (undefined name, a cycle, itself)
+        gl = rnd.choice(['zzbig = total > zzthreshold\nzzthreshold = avg(payments) * zzscale\n', 'zza = zzb + 1\nzzb = zza + 1\nzzbig = zza > 0\n', 'zzbig = zzbig or total > 1\n',
+                         'zzbig = total > zzlater\nzzlater = %s\n' % poison, 'zzbig = zzmid > 1\nzzmid = zzend * 2\nzzend = months + nosuchname\n'])
+        pv = base[:]
+        pv.insert(rnd.randint(0, len(pv)), ('Poisoned', [], 'zzbig'))
+        ptxt, btxt, gone = text(pv, gl), text(base), 'Poisoned'
+        poison = gl.strip().replace('\n', ' ; ')
     elif mode == 'local-var':
         i = rnd.randrange(len(base))
         pv = base[:]
